@@ -712,6 +712,74 @@ class C19(Prop):
 PROPS = {c.pid: c for c in (C01, C02, C03, C04, C05, C06, C07, C08, C09, C10, C11, C12, C13, C19)}
 
 
+class _Collector:
+    """stand-in for core.Report while a candidate input is re-judged by the shrinker"""
+    def __init__(self):
+        self.direct, self.corr, self.nontrivial, self.samples, self.evaluations = [], [], set(), [], 0
+
+
+def shrink_violation(P, kind, sig, text, impl, model, budget=160):
+    """Greedy reduction of a single-block replay (dataset + requests): delete requests, trips, footpaths, candidate stops at both
+    ends and optional request parameters while a violation with the SAME signature (direct) / a disagreement (corr) still shows on
+    the implementation built from /repo's working tree.  Returns (new_text, note) or (text, None) when nothing could be removed or
+    the replay holds several blocks (pairs of datasets are not reduced).  Every candidate is judged exactly like a replay."""
+    blocks, cur = [], []
+    for line in text.splitlines(True):
+        if line.startswith("#"): continue
+        cur.append(line)
+        if line.strip() == "end":
+            blocks.append("".join(cur)); cur = []
+    if len(blocks) != 1:
+        return text, None
+    did, d, reqs, _ = gen.parse_protocol(blocks[0])
+    reqs = [gen.parse_query(r) for r in reqs]
+    calls = [0]
+
+    def fails(dd, rr):
+        if calls[0] >= budget or not rr: return False
+        calls[0] += 1
+        try:
+            flat = [(did, block_text(did, dd, rr), [k if k in ("route", "summary", "accessibility") else "route" for k, q in rr])]
+            res = engine.run_cases(flat, impl, model)
+            col = _Collector()
+            Prop.evaluate_case(P, dict(did=did, blocks=[(did, dd, rr)]), res, col, collections.Counter())
+        except Exception:
+            return False
+        pool = col.direct if kind == "direct" else col.corr
+        return any(s_ == sig for s_, _, _ in pool)
+
+    if not fails(d, reqs):
+        return text, None            # not reproducible in this form (needs its neighbours): keep the generated input
+    size0 = (len(d["trips"]), len(d["foot"]), len(d["acc"]) + len(d["egr"]), sum(len(q) for _, q in reqs))
+    changed = True
+    while changed and calls[0] < budget:
+        changed = False
+        for i in range(len(reqs) - 1, -1, -1):                      # requests
+            if len(reqs) > 1 and fails(d, reqs[:i] + reqs[i + 1:]):
+                reqs = reqs[:i] + reqs[i + 1:]; changed = True
+        for key, keep in (("trips", 1), ("foot", 0), ("acc", 1), ("egr", 1)):
+            i = len(d[key]) - 1
+            while i >= 0:
+                item = d[key][i]
+                if len(d[key]) > keep and not (key == "foot" and item[0] == item[1]):
+                    d2 = dict(d); d2[key] = d[key][:i] + d[key][i + 1:]
+                    if fails(d2, reqs):
+                        d = d2; changed = True
+                i -= 1
+        for j, (k, q) in enumerate(reqs):                            # optional request parameters
+            for pk in [x for x in list(q) if x not in ("scenario", "time_of_trip", "time_type")]:
+                q2 = {a: b for a, b in q.items() if a != pk}
+                r2 = reqs[:j] + [(k, q2)] + reqs[j + 1:]
+                if fails(d, r2):
+                    reqs = r2; q = q2; changed = True
+    size1 = (len(d["trips"]), len(d["foot"]), len(d["acc"]) + len(d["egr"]), sum(len(q) for _, q in reqs))
+    if size1 == size0:
+        return text, None
+    note = "# shrunk by the check (%d re-runs): trips %d -> %d, footpaths %d -> %d, candidate stops %d -> %d, request fields %d -> %d\n" % (
+        calls[0], size0[0], size1[0], size0[1], size1[1], size0[2], size1[2], size0[3], size1[3])
+    return note + block_text(did, d, reqs), note
+
+
 def run(pid, tier, seed, replay=None, theorems=None, module=None):
     P = PROPS[pid]()
     ths0 = theorems if theorems is not None else P.theorems
@@ -773,4 +841,17 @@ def run(pid, tier, seed, replay=None, theorems=None, module=None):
     rep.cov["input_distribution"] = dict(stats)
     rep.cov["streams"] = dict(P.streams)
     rep.obligation("correspondence:projection(%s)" % pid, not rep.corr, "%d disagreement(s)" % len(rep.corr))
+    # the input that goes into the replay file is reduced first (the first direct violation, else the first disagreement)
+    if not replay:
+        try:
+            if rep.direct:
+                sig0, desc0, text0 = rep.direct[0]
+                t1, note = shrink_violation(P, "direct", sig0, text0, impl, model)
+                if note: rep.direct[0] = (sig0, desc0, t1); rep.cov["shrunk"] = note.strip()
+            elif rep.corr:
+                sig0, desc0, text0 = rep.corr[0]
+                t1, note = shrink_violation(P, "corr", sig0, text0, impl, model)
+                if note: rep.corr[0] = (sig0, desc0, t1); rep.cov["shrunk"] = note.strip()
+        except Exception as e:          # a shrinker problem must never hide or create a verdict
+            rep.cov["shrunk"] = "shrinker failed: %r" % (e,)
     return rep.finish()
